@@ -325,8 +325,17 @@ def check_names(idx, run):
               "position in the routine", loc(ncls.module, low))
 
 
+
+GUARDED = [
+    ('PSyDataTrans', 'validate'),
+    ('RegionTrans', 'validate'),
+    ('ExtractTrans', 'validate'),
+]
+
 def check(idx, run):
     run.explanation = __doc__
+    from sa.guards import check_guards
+    check_guards(idx, run, "C28.R4", GUARDED)
     check_no_escape(idx, run)
     check_lowering(idx, run)
     check_names(idx, run)
